@@ -1,7 +1,7 @@
 (* C20: the property (RFC 6811 classification) as Prop-level definitions and as
    an executable oracle, plus the case checkers used by the two correspondence
-   streams ("validity": RouteValidity::new & readers; "covers": rpki's
-   Prefix::covers).  No proofs here. *)
+   streams ("validity": RouteValidity::new, readers, HTTP endpoints; "prefix":
+   rpki's Prefix::covers and the Prefix constructors).  No proofs here. *)
 From Coq Require Import List NArith Bool.
 From RV Require Export C20.Model.
 Import ListNotations.
@@ -170,6 +170,11 @@ Definition check_parse (c : pcase) : N :=
                 && parse_okb (pc_v4 c) (pc_addr c) (pc_len c) false (pc_relaxed c)) then 2
   else if optp_eqb (prefix_new (pc_v4 c) (pc_addr c) (pc_len c)) (pc_strict c)
           && optp_eqb (prefix_new_relaxed (pc_v4 c) (pc_addr c) (pc_len c)) (pc_relaxed c) then 0 else 1.
+
+(* the two kinds of cases about rpki's Prefix share one stream ("prefix") *)
+Inductive pxcase := CCov (c : ccase) | CPar (c : pcase).
+Definition check_prefix (x : pxcase) : N :=
+  match x with CCov c => check_covers c | CPar c => check_parse c end.
 
 (* short constructors for the generated case files *)
 Definition S4 (a : N) : N := N.shiftl a 96.    (* an IPv4 address as left-aligned bits *)
